@@ -535,6 +535,10 @@ class RedfieldRelaxationTensor(RelaxationTensor):
         
         if self.as_operators:
             
+            # operators which are plain attributes (time-dependent tensors)
+            # are not brought to the current basis by reading them
+            self.manager.transform_to_current_basis(self)
+            
             RR = self._convert_operators_2_tensor(self.Km, self.Lm, self.Ld)
             if True:
                 self.data = RR
